@@ -141,7 +141,7 @@ pub fn fault_case(prop: &'static str, pairs: bool) -> impl Fn(&History, &mut Cur
         // them); the variants are judged by this check's own clauses
         let n = clean.requests;
         for k in 0..n {
-            let hk = History { ops: h.ops.clone(), plan: Plan { faults: vec![k], intrude: None } };
+            let hk = History { ops: h.ops.clone(), plan: Plan { faults: vec![k], intrude: h.plan.intrude } };
             cur.record(&history_value(&hk));
             let rk = run_history_for(&hk, prop);
             let nt = rk.ctx.tags.contains("fault_observed");
@@ -153,7 +153,7 @@ pub fn fault_case(prop: &'static str, pairs: bool) -> impl Fn(&History, &mut Cur
             }
             if pairs && rk.failures.is_empty() {
                 for j in (k + 1)..rk.requests {
-                    let hj = History { ops: h.ops.clone(), plan: Plan { faults: vec![k, j], intrude: None } };
+                    let hj = History { ops: h.ops.clone(), plan: Plan { faults: vec![k, j], intrude: h.plan.intrude } };
                     cur.record(&history_value(&hj));
                     let rj = run_history_for(&hj, prop);
                     let nt = rj.ctx.tags.contains("fault_observed") && rj.faults_fired >= 2;
@@ -177,7 +177,7 @@ pub fn c05(tier: Tier, seed: u64) -> Verdict {
     let n = tier.pick(5000, 60000);
     let profiles = vec![
         (Profile::faults(), n),
-        (Profile { w_clone: 26, w_trunc: 14, ..Profile::faults() }, n),
+        (Profile { w_clone: 26, w_trunc: 14, intrusions: true, ..Profile::faults() }, n),
         (Profile { w_static: 16, w_convert: 10, ..Profile::faults() }, n / 2),
     ];
     for (i, (p, cases)) in profiles.into_iter().enumerate() {
@@ -266,6 +266,36 @@ pub fn panic_case(prop: &'static str, max_k: u16) -> impl Fn(&History, &mut Curr
     }
 }
 
+const STRING_EXTEND_TEXTS: [&str; 6] = ["x1", "a heap item longer than sixteen bytes", "é€", "", "0123456789abcdef", "tail"];
+
+/// one case of the `Extend<LeanString> for String` sweep: None = as String::extend of the same texts
+pub fn string_extend_case(n_items: usize, k: u16, hinted: bool) -> Option<String> {
+    let texts = STRING_EXTEND_TEXTS;
+    crate::outcome::silence_panics();
+    crate::shadow::with(|h| h.begin_case());
+    let leans: Vec<lean_string::LeanString> = texts[..n_items].iter().map(|t| lean_string::LeanString::from(*t)).collect();
+    let strings: Vec<String> = texts[..n_items].iter().map(|t| t.to_string()).collect();
+    let hint = if hinted { None } else { Some(0) };
+    let mut real = String::from("ab");
+    let mut model = String::from("ab");
+    let r = std::panic::catch_unwind(std::panic::AssertUnwindSafe(|| real.extend(crate::callbacks::PlanIter::new(leans.into_iter(), hint, Some(k)))));
+    let mo = std::panic::catch_unwind(std::panic::AssertUnwindSafe(|| model.extend(crate::callbacks::PlanIter::new(strings.into_iter(), None, Some(k)))));
+    let live = crate::shadow::with(|h| {
+        let l = h.live.len();
+        h.end_case();
+        l
+    });
+    if r.is_ok() != mo.is_ok() {
+        Some(format!("String::extend of {n_items} LeanString items, iterator panicking at call {k}: panicked = {}, with String items = {}", r.is_err(), mo.is_err()))
+    } else if real != model {
+        Some(format!("String::extend of {n_items} LeanString items, iterator panicking at call {k}: the String holds {real:?}; with String items it holds {model:?}"))
+    } else if live != 0 {
+        Some(format!("String::extend of {n_items} LeanString items, iterator panicking at call {k}: {live} buffer(s) of the items leaked"))
+    } else {
+        None
+    }
+}
+
 pub fn c18(tier: Tier, seed: u64) -> Verdict {
     let t0 = Instant::now();
     let cat = catalogue(true);
@@ -289,12 +319,33 @@ pub fn c18(tier: Tier, seed: u64) -> Verdict {
             break;
         }
     }
+    if merged.violation.is_none() {
+        // the crate also implements Extend<LeanString> for String: a panicking iterator leaves in the String what
+        // String::extend of the same texts leaves
+        let mut m = Merged::new();
+        'o: for n_items in 0..=STRING_EXTEND_TEXTS.len() {
+            for k in 0..=(n_items as u16 + 1) {
+                for hinted in [false, true] {
+                    m.evaluations += 1;
+                    let detail = string_extend_case(n_items, k, hinted);
+                    if let Some(detail) = detail {
+                        m.violation = Some(Violation { case: serde_json::json!({"kind": "string_extend", "items": n_items, "k": k, "hinted": hinted}), clause: "C18.string_extend".into(), step: 0, detail });
+                        break 'o;
+                    }
+                    if k as usize <= n_items {
+                        m.distinct.insert(digest(&("string_extend", n_items, k, hinted)));
+                    }
+                }
+            }
+        }
+        merged.merge(m);
+    }
     finish(
         "C18",
         tier,
         seed,
         "fault_enumeration",
-        "a catalogue (9 target states x retain masks, every Extend kind x honest / small / unreservable size hints, collect, write!, to_lean_string) and, for each proptest-generated history, every callback-taking operation (retain, every Extend and FromIterator impl, to_lean_string/write! of a piecewise Display) is re-run with its callback panicking at invocation k for k = 0,1,.. until the panic no longer fires; oracle = String after the identical panicking call + C02/C03 invariants + empty heap at the end; non-trivial = the panic fired with k >= 1 or on a non-inline target; distinct = distinct (history, panic position) digests",
+        "a catalogue (9 target states x retain masks, every Extend kind x honest / small / unreservable size hints, collect, write!, to_lean_string) and, for each proptest-generated history, every callback-taking operation (retain, every Extend and FromIterator impl, to_lean_string/write! of a piecewise Display) is re-run with its callback panicking at invocation k for k = 0,1,.. until the panic no longer fires; also String::extend over LeanString items (0-6 items, every panic position); oracle = String after the identical panicking call + C02/C03 invariants + empty heap at the end; non-trivial = the panic fired with k >= 1 or on a non-inline target; distinct = distinct (history, panic position) digests",
         ASSUME_HIST,
         &merged,
         t0.elapsed().as_secs_f64(),
